@@ -4,7 +4,7 @@ from __future__ import annotations
 from sa.terms import C, CallT, P, SubC, linear_cmp, show, show_fact
 from sa.walker import State
 
-from . import own_site, CHECKER, VSIG, call_events, flat, fn_site, loc, mentions
+from . import own_site, CHECKER, VSIG, checked_ok, call_events, flat, fn_site, loc, mentions
 
 EXPLANATION = (
     "Walk of verify_root (all paths, callees through conditional summaries). On every accepting path: R1 both arguments "
@@ -49,7 +49,7 @@ def run(ctx, deps=True):
     for p in rets:
         st = State(facts=p.facts)
         for who, X in (("trusted", T), ("new", U)):
-            ok = st.holds(("ok", CallT(CHECKER, [X])))
+            ok = checked_ok(st, CHECKER, X)
             note("R1|checker|" + who, ok, "accepting paths %s the delegating-metadata checker on the %s root" % ("all passed" if ok else "exist that did NOT pass", who))
             ok = st.holds(("eq", SubC(X, "signed", "type"), C("root")))
             note("R2|type|" + who, ok, "accepting paths %s signed.type == 'root' for the %s root" % ("all established" if ok else "exist without", who))
@@ -118,6 +118,11 @@ def run(ctx, deps=True):
         from . import c01
 
         c01.run(ctx.sub("DEP-C01"))
+        # ... and "both are well-formed root metadata" means what the delegating-metadata checker
+        # decides: C14's schema rules, re-evaluated here
+        from . import c14
+
+        c14.run(ctx.sub("DEP-C14"), deps=False)
 
 
 def _excludes_increment(f, tv, uv):
@@ -177,6 +182,12 @@ def _cause(eng, p, x, T, U, tv, uv, pairs):
             return "both roots declare type root (the two declared types differ)"
         if any(f[0] in ("ne", "cmp") and mentions(f, tv) and mentions(f, uv) and _excludes_increment(f, tv, uv) for f in facts):
             return "new.version == trusted.version + 1"
+        # a spelled-out "this argument is not a dictionary": such a value is not well-formed root
+        # metadata (the checker refuses it with the same class a few lines further down)
+        if eng.prog.exc_is_sub(x.exc, "TypeError"):
+            for X, who in ((T, "trusted"), (U, "new")):
+                if any(f[0] == "nottype" and f[1] in (X, SubC(X, "signed"), SubC(X, "signatures")) and "dict" in f[2] for f in facts):
+                    return "well-formedness of the %s root (not a dictionary)" % who
         return None
     for ev in flat(p):
         if ev[0] == "call" and ev[5][0] == "raise" and (ev[1] == top or ev[1] in x.chain):
@@ -191,6 +202,6 @@ def _cause(eng, p, x, T, U, tv, uv, pairs):
 
     about = cond_roots(x)
     for X, who in ((T, "trusted"), (U, "new")):
-        if not st.holds(("ok", CallT(CHECKER, [X]))) and (not about or X in about):
+        if not checked_ok(st, CHECKER, X) and (not about or X in about):
             return "well-formedness of the %s root (implicit error)" % who
     return None
